@@ -12,10 +12,12 @@ def _smt(run):
     from checks import C19smt, asmsse
     C19smt.ob_smt(run)
     asmsse.ob(run, 'C19')       # spellings of the MMX/SSE lines
+    from checks import asmrel
+    asmrel.ob(run, 'C19')        # relative branches
 
 if __name__ == '__main__':
     sys.exit(asmfam.run_family('C19', sys.argv[1:], 'other', RULE + '; ' + TEXT['C19'][0], TEXT['C19'][1],
                                ['specs/x86dec.py (reference disassembler)', 'bounded/asmgen.py printers (audited against GNU as: 16475 of 16878 generated lines assemble to an encoding of the intended instruction)'] + (['/usr/bin/as (GNU assembler, executed)'] if 'C19' in ('C03', 'C09') else []),
-                               ['MMX/SSE, relative branches and far pointers are outside the generator', 'lines the assembler rejects with ValueError are not constrained',
+                               ['MMX/SSE, relative branches with a numeric displacement are checked separately against the spec decoder (checks/asmrel.py: all spellings of jmp/call/jcc/loop*/jecxz x 24 boundary displacements); far pointers are outside the generator', 'lines the assembler rejects with ValueError are not constrained',
                                 'term algebra proof: key sets bounded to {eax, ebx, imm, symb{s}, symb{s,t}} per operand; arg2txt (spelling memo) is an opaque callee that may raise ValueError; size/ad/txt keys are outside the abstract view'],
                                extra=_smt))
